@@ -52,6 +52,12 @@ def run(run, ix, tier):
     check_conversions(run, ix)
     run.rule('C-R13', floor=12, desc='non-audited interval functions compose interval operations only')
     iv_rules.check_composition(run, ix, False)
+    # C-R14: endpoints taken directly from transcendental kernels
+    check_transcendental_endpoints(run, ix)
+    # literal forms (rules of the C07 module, reported here as C-R6)
+    from ..report import SubRun
+    from . import c07
+    c07.check_shared_prefix_sign(SubRun(run, keep=('C-R7',), rename=lambda r: 'C-R6'), ix)
     # C-R10: direction of the x + eps shortcuts of the real kernels
     from ..perturb import check_perturbations
     run.rule('C-R10', floor=15, desc='mpf_perturb sites: sign of the neglected term')
@@ -438,6 +444,44 @@ def weakly_guarded_finals(g):
                         if k is not None and 0 < k < GUARD_MIN and not directed(s_):
                             out.append((x, s_, k))
     return out
+
+
+TRANSCENDENTAL = ('mpf_exp', 'mpf_log', 'mpf_atan', 'mpf_atan2', 'mpf_gamma', 'mpf_rgamma', 'mpf_loggamma',
+                  'mpf_factorial', 'mpf_pow', 'mpf_cosh_sinh', 'mpf_cos_sin', 'mpf_cos', 'mpf_sin', 'mpf_tan')
+
+
+def check_transcendental_endpoints(run, ix):
+    """C-R14: the correctly rounded kernels (add, sub, mul, div, sqrt, conversions) return the floor /
+    ceiling of the EXACT result, so an endpoint taken from them is a bound.  The transcendental
+    kernels round an APPROXIMATION (computed with 14-30 guard bits from an argument truncated to the
+    working precision) in the requested direction: whenever the approximation is itself
+    representable, or the shortcut for extreme arguments is not a bound, floor and ceiling are on
+    the wrong side.  An interval function that takes an endpoint straight from such a kernel, without
+    widening it outward by the kernel's error (as mpi_cos_sin.finalize does), is not rigorous.  Each
+    (interval function, kernel) pair is one finding; on the pinned tree they are all genuine (inputs
+    in known_findings.json) and not repaired (every kernel would need an error bound)."""
+    run.rule('C-R14', floor=5, desc='endpoints taken straight from approximate (transcendental) kernels')
+    m = ix.module(LIBMPI)
+    for f in sorted(m.funcs.values(), key=lambda g: g.lineno):
+        if f.parent is not None or not f.name.startswith('mpi_'):
+            continue
+        kernels = {}
+        for x in _walk_own(f.node):
+            if isinstance(x, ast.Call) and isinstance(x.func, ast.Name) and x.func.id in TRANSCENDENTAL and \
+                    any(norm(a) in ('round_floor', 'round_ceiling') for a in x.args):
+                kernels.setdefault(x.func.id, x)
+        if not kernels:
+            continue
+        widened = any(nf.name == 'finalize' for nf in f.nested)
+        for k, call in sorted(kernels.items()):
+            if widened:
+                run.ok('C-R14', '%s: %s results are widened outward (finalize)' % (f.name, k))
+            else:
+                run.fail(Finding('C-R14', LIBMPI, f.name, 'endpoints from %s' % k,
+                                 'endpoints are taken straight from %s(..., round_floor/round_ceiling): that kernel '
+                                 'rounds an approximation in the requested direction, which is not a bound when the '
+                                 'approximation is representable or a shortcut is used; no outward widening follows'
+                                 % k, line=call.lineno))
 
 
 def check_conversions(run, ix):
